@@ -265,7 +265,7 @@ ARENA = {
            'block-contents-changed', 'live-blocks-overlap', 'grow-lost-contents', 'shrink-lost-contents', 'panic'],
         search_x=True,
         mism=['result-block', 'stats'],
-        note='PARTIAL: opt-out / non-last / same-address theorems proved; in-place grow clause not proved yet'),
+        note='opt-out / non-last / same-address / in-place-grow theorems proved over the model; partial only in that the model is tied to the code by correspondence'),
 }
 
 
@@ -274,7 +274,7 @@ ARENA.update({
         x=['claimed-handle-allocated', 'claimed-handle-reports-nonzero-stats', 'second-claim-did-not-panic',
            'claimed-handle-not-claimed', 'handle-still-claimed-after-guard-dropped', 'block-contents-changed', 'panic'],
         mism=['result-kind', 'handle-stats', 'stats', 'result-block'],
-        note='claims: all clauses proved over the model (invariant through claims PARTIAL as C01)'),
+        note='claims: all clauses proved over the model, invariant through claims included (C01)'),
     'C15': dict(
         x=['prepare-moved-a-bump-position', 'try-with-mut-panic-moved-a-position', 'try-with-mut-panic', 'prepared-capacity-smaller-than-requested', 'committed-slice-lost-contents',
            'commit-advanced-position-by-more-than-contents-plus-padding', 'block-contents-changed', 'live-blocks-overlap', 'panic'],
